@@ -608,6 +608,31 @@ theorem sram_paged_address (c : SramCfg) (adr pv : Nat) (hp : c.pageBits ≠ 0) 
       slice c.wb (c.abits - c.pageBits) adr + 2 ^ (c.abits - c.pageBits) * (pv % 2 ^ c.pageBits) := by
   simp [SramCfg.portAdr, hp, cat, Nat.mod_eq_of_lt (slice_lt _ _ _)]
 
+/-- **Sub-word staging order for any ratio** (memory word = `cpm` bus words; 32-bit words on an 8-bit bus: 4,
+    128-bit on 32-bit: 4, 64-bit on 8-bit: 8 …): when the last sub-word of a memory word is written the word becomes
+    `Cat(dat_w, wregs[cpm-2], …, wregs[0])`, so a later read of sub-word `k` (which `sram_next_read` takes from bits
+    `[(cpm-1-k)*bw, +bw)`) returns exactly what the write to sub-word `k` staged, and the last sub-word `dat_w`. -/
+theorem sram_staging_order_any_ratio (c : SramCfg) (s : SramState) (i : SramIn)
+    (hw : c.width = c.cpm * c.bw) (hcpm : 0 < c.cpm) (hlen : s.wregs.length = c.cpm - 1)
+    (hro : c.readOnly = false) (hsel : c.sel i.bus.adr = true) (hwe : i.bus.we = true)
+    (hsub : i.bus.adr % 2 ^ c.wb = c.cpm - 1)
+    (hin : c.clampAdr (c.portAdr i.bus.adr i.page) < s.mem.length) :
+    let word := ((sram c).next s i).mem.getD (c.clampAdr (c.portAdr i.bus.adr i.page)) 0
+    slice 0 c.bw word = i.bus.datW % 2 ^ c.bw ∧
+    ∀ k, k < c.cpm - 1 → slice ((c.cpm - 1 - k) * c.bw) c.bw word = (s.wregs.getD k 0) % 2 ^ c.bw :=
+  sram_staging_order c s i hw hcpm hlen hro hsel hwe hsub hin
+
+/-- Ratio 4 (2x32 memory on an 8-bit bus, window 1 of 16-word pages): the four bytes written to addresses 16..19
+    are read back from the same addresses (big-endian sub-word order inside the memory word 0x11223344). -/
+example :
+    let c : SramCfg := { bw := 8, pbits := 4, address := 1, width := 32, depth := 2, readOnly := false, init := [] }
+    let w := fun (a d : Nat) => ({ bus := { adr := a, re := false, we := true, datW := d }, page := 0 } : SramIn)
+    let r := fun (a : Nat) => ({ bus := { adr := a, re := true, we := false, datW := 0 }, page := 0 } : SramIn)
+    let fill := [w 16 0x11, w 17 0x22, w 18 0x33, w 19 0x44]
+    ((sram c).run fill).mem = [0x11223344, 0] ∧
+    [16, 17, 18, 19].map (fun a => sramDatR c ((sram c).run (fill ++ [r a]))) = [0x11, 0x22, 0x33, 0x44] := by
+  decide
+
 /-! ## Gathering: `_sort_gathered_items` -/
 
 /-- **Fixed and automatic locations**: whenever `_sort_gathered_items` returns, the slot list is a permutation of
